@@ -48,8 +48,14 @@ def run(prop, tier, seed, replay=None):
                 rep.note_nontrivial(cid + "/" + str(j))
         for rej in static.rejections(v):
             st = c["steps"][rej["step"] - 1]
+            if rej["clause"].startswith("X4:"):
+                rep.extra_note(rej["clause"], {"type": c["py"], "value": st["a"], "step": st, "case_id": cid})
+                continue
             rep.rejected(rej["clause"], {"kind": "value_case", "type": c["py"], "value": st["a"], "step": st,
                                          "companions": c["companions"], "case_id": cid}, {"t": c["t"], "step": st})
+    ncall = sum(len(c["steps"]) for c in res if c["t"]["k"] == "callable")
+    if ncall:
+        rep.extra_checked("X4:callable", ncall)
     for c in res[:2]:
         rep.sample({"type": c["py"], "steps": c["steps"][:3]})
     rep.rule = (
